@@ -589,7 +589,7 @@ func TestC06(t *testing.T) {
 	// random shapes
 	total := 8000 / cfg.NShards
 	if cfg.Thorough() {
-		total = 60000 / cfg.NShards
+		total = 600000 / cfg.NShards
 	}
 	var genArr func(rt *rapid.T, d int) *aArr
 	genArr = func(rt *rapid.T, d int) *aArr {
